@@ -1,6 +1,6 @@
 # C07 harness: drives the REAL gsm_shared.HoppingParams and the real
-# Transceiver.enable_fh / get_rx_freq / get_tx_freq (plain functions applied to a bare
-# Transceiver instance: no sockets are opened) with the line protocol of the Lean driver.
+# Transceiver.enable_fh / get_rx_freq / get_tx_freq (on a Transceiver built by its REAL constructor over in-memory
+# sockets: every attribute the methods read is the one the constructor sets) with the line protocol of the Lean driver.
 #   hop.py    HSN MAIO FN MA            -> ok RX TX | EXC <class>
 #   hop.pypnm N                         -> PNM | EXC <class>
 #   hop.freq  FH HSN MAIO FN MA RX0 TX0 -> init=<ok|EXC:c|-> rx=<v|None|EXC:c> tx=<…>   (FH: 0 none, 1 enable_fh, 2 enable_fh + disable_fh)
@@ -16,8 +16,34 @@ import sys
 import logging
 sys.path.insert(0, sys.argv[1])
 logging.disable(logging.CRITICAL)
+import types
 import gsm_shared
+import udp_link
 import transceiver
+
+
+class FakeSocket:
+    """in-memory socket: the constructor's interfaces bind and send nowhere"""
+    def __init__(self, *a): self.bound = None
+    def setsockopt(self, *a): pass
+    def setblocking(self, *a): pass
+    def bind(self, addr): self.bound = addr
+    def close(self): pass
+    def getsockname(self): return self.bound
+    def sendto(self, data, remote): pass
+    def recvfrom(self, n): raise BlockingIOError()
+
+
+udp_link.socket = types.SimpleNamespace(socket=FakeSocket, AF_INET=2, SOCK_DGRAM=2, SOL_SOCKET=1, SO_REUSEADDR=2)
+
+
+def set_named(obj, prefer, part, value):
+    """the attribute `prefer` of the unchanged code, or the one attribute the constructor created whose name contains `part`"""
+    if prefer in vars(obj):
+        setattr(obj, prefer, value)
+        return
+    cands = [k for k in vars(obj) if part in k]
+    setattr(obj, cands[0] if len(cands) == 1 else prefer, value)
 
 
 def parse_ma(s):
@@ -35,9 +61,10 @@ def opt(s):
 
 
 def new_trx(rx0, tx0):
-    trx = object.__new__(transceiver.Transceiver)   # no __init__: no sockets
-    trx.remote_addr, trx.base_port, trx.child_idx, trx.name = "harness", 0, 0, None
-    trx._rx_freq, trx._tx_freq, trx.fh = rx0, tx0, None
+    trx = transceiver.Transceiver("0.0.0.0", "127.0.0.1", 5700)
+    # what RXTUNE / TXTUNE store (kHz * 1000), or nothing yet
+    set_named(trx, "_rx_freq", "rx_freq", rx0)
+    set_named(trx, "_tx_freq", "tx_freq", tx0)
     return trx
 
 
@@ -64,16 +91,16 @@ for line in sys.stdin:
             ini = "-"
             if int(tok[1]):
                 try:
-                    transceiver.Transceiver.enable_fh(trx, int(tok[2]), int(tok[3]), parse_ma(tok[5]))
+                    trx.enable_fh(int(tok[2]), int(tok[3]), parse_ma(tok[5]))
                     ini = "ok"
                 except Exception as e:
                     ini = "EXC:%s" % type(e).__name__
                 if int(tok[1]) == 2:
-                    transceiver.Transceiver.disable_fh(trx)
+                    trx.disable_fh()
             fn = int(tok[4])
             print("init=%s rx=%s tx=%s" % (ini,
-                  call(lambda: transceiver.Transceiver.get_rx_freq(trx, fn)),
-                  call(lambda: transceiver.Transceiver.get_tx_freq(trx, fn))))
+                  call(lambda: trx.get_rx_freq(fn)),
+                  call(lambda: trx.get_tx_freq(fn))))
         elif tok[0] == "hop.seq":
             trx = new_trx(opt(tok[1]), opt(tok[2]))
             res = []
@@ -81,17 +108,17 @@ for line in sys.stdin:
                 o = op.split()
                 if o[0] == "E":
                     try:
-                        transceiver.Transceiver.enable_fh(trx, int(o[1]), int(o[2]), parse_ma(o[3]))
+                        trx.enable_fh(int(o[1]), int(o[2]), parse_ma(o[3]))
                         res.append("ok")
                     except Exception as e:
                         res.append("EXC:%s" % type(e).__name__)
                 elif o[0] == "D":
-                    transceiver.Transceiver.disable_fh(trx)
+                    trx.disable_fh()
                     res.append("-")
                 elif o[0] == "Q":
                     fn = int(o[1])
-                    res.append("%s/%s" % (call(lambda: transceiver.Transceiver.get_rx_freq(trx, fn)),
-                                          call(lambda: transceiver.Transceiver.get_tx_freq(trx, fn))))
+                    res.append("%s/%s" % (call(lambda: trx.get_rx_freq(fn)),
+                                          call(lambda: trx.get_tx_freq(fn))))
                 else:
                     res.append("bad-op")
             print(" ".join(res))
